@@ -68,10 +68,12 @@ func checkC05(c *Ctx) {
 		}
 		// strict mode: error return mentioning monophyly  <=>  !monophyletic && strict
 		c.strictGuard(fi)
+		c.uniqueRootBranch(fi)
 	}
 
 	// ---- RerootMidPoint
 	if fi := c.Func("tree", "Tree", "RerootMidPoint"); fi != nil {
+		c.midpointBothOrientations(fi)
 		env := c.newLFEnv(info, fi.Decl.Body)
 		lens := c.setterCalls(info, fi.Decl.Body, "length", env.o)
 		if len(lens) != 2 {
@@ -474,4 +476,133 @@ func (c *Ctx) reorderRules() {
 			c.Undecided("PATH", "tree.Tree."+name+"/root-move→ReorderEdges", fi.Decl.Pos(), "no root move found in "+name)
 		}
 	}
+}
+
+// uniqueRootBranch: RerootOutGroup refuses unless exactly one branch of the LCA lies outside the
+// outgroup: an error return guarded by a comparison whose normal form is len(n.br) - len(edges) = 1.
+func (c *Ctx) uniqueRootBranch(fi *FuncInfo) {
+	info := fi.Pkg.TypesInfo
+	key := "tree.Tree.RerootOutGroup/unique-root-branch"
+	clause := "that outgroup is exactly one of the two clades below the root ... a non-monophyletic outgroup is refused"
+	var nObj, eObj types.Object
+	ast.Inspect(fi.Decl.Body, func(n ast.Node) bool {
+		if as, ok := n.(*ast.AssignStmt); ok && len(as.Rhs) == 1 && len(as.Lhs) == 4 {
+			if call, ok := unparen(as.Rhs[0]).(*ast.CallExpr); ok && isRepoFunc(calleeOf(info, call), "tree", "Tree", "LeastCommonAncestorUnrooted") {
+				nObj, eObj = identObj(info, as.Lhs[0]), identObj(info, as.Lhs[1])
+			}
+		}
+		return true
+	})
+	if nObj == nil || eObj == nil {
+		c.Undecided("GF", key, fi.Decl.Pos(), "results of LeastCommonAncestorUnrooted not found")
+		return
+	}
+	env := c.newLFEnv(info, fi.Decl.Body)
+	want := pAtom("len(" + nObj.Name() + ".br)").sub(pAtom("len(" + eObj.Name() + ")")).sub(pInt(1))
+	found := false
+	ast.Inspect(fi.Decl.Body, func(n ast.Node) bool {
+		is, ok := n.(*ast.IfStmt)
+		if !ok || found {
+			return true
+		}
+		be, ok := unparen(is.Cond).(*ast.BinaryExpr)
+		if !ok || be.Op != token.NEQ {
+			return true
+		}
+		// body is an error return
+		if len(is.Body.List) == 0 {
+			return true
+		}
+		ret, ok := is.Body.List[len(is.Body.List)-1].(*ast.ReturnStmt)
+		if !ok || returnsNilError(info, ret) {
+			return true
+		}
+		l, e1 := env.fold(be.X)
+		r, e2 := env.fold(be.Y)
+		if e1 != nil || e2 != nil {
+			return true
+		}
+		d := l.sub(r)
+		if d.equal(want) || d.neg().equal(want) {
+			found = true
+			c.OK("GF", key, is.Pos(), "refused unless exactly one branch of the LCA lies outside the outgroup")
+		}
+		return true
+	})
+	if !found {
+		c.Violation("GF", key, fi.Decl.Pos(), fmt.Sprintf("no error return guarded by `len(%s.br) - len(%s) != 1` (or an equivalent form): when the outgroup covers only part of a multifurcating node the root is placed on an arbitrary branch, the outgroup is not one of the two root clades and, with removal, other tips vanish", nObj.Name(), eObj.Name())).Clause = clause
+	}
+}
+
+// midpointBothOrientations: the walk along the longest path crosses the apex of the path, so its
+// branches are met in both orientations; the two ends used for the cut must be assigned under
+// both `E.Right() == previous` and `E.Left() == previous`.
+func (c *Ctx) midpointBothOrientations(fi *FuncInfo) {
+	info := fi.Pkg.TypesInfo
+	key := "tree.Tree.RerootMidPoint/path-orientation"
+	clause := "Rerooting ... at the midpoint ... preserve ... every tip-to-tip path length"
+	// the two ends: receivers of the delNeighbor pair
+	var a, b types.Object
+	for _, call := range callsIn(fi.Decl.Body, false) {
+		if isRepoFunc(calleeOf(info, call), "tree", "Node", "delNeighbor") && len(call.Args) == 1 {
+			if sel, ok := unparen(call.Fun).(*ast.SelectorExpr); ok && a == nil {
+				a, b = identObj(info, sel.X), identObj(info, call.Args[0])
+			}
+		}
+	}
+	if a == nil || b == nil {
+		c.Undecided("SYM", key, fi.Decl.Pos(), "the two ends of the cut branch (delNeighbor pair) not found")
+		return
+	}
+	// assignments X = E.right / E.left inside a loop
+	type asg struct {
+		obj  types.Object
+		end  string
+		edge string
+		pos  string // canon of positive equality conjuncts
+	}
+	var asgs []asg
+	ast.Inspect(fi.Decl.Body, func(n ast.Node) bool {
+		as, ok := n.(*ast.AssignStmt)
+		if !ok || len(as.Lhs) != 1 || len(as.Rhs) != 1 || as.Tok != token.ASSIGN {
+			return true
+		}
+		o := identObj(info, as.Lhs[0])
+		if o != a && o != b {
+			return true
+		}
+		k := c.canon(info, as.Rhs[0], nil)
+		var end string
+		switch {
+		case strings.HasSuffix(k, ".right"):
+			end = "right"
+		case strings.HasSuffix(k, ".left"):
+			end = "left"
+		default:
+			return true
+		}
+		conds, _ := c.pathConds(info, fi.Decl.Body, as, true)
+		var ps []string
+		for _, cd := range conds {
+			if cd.Expr != nil && !cd.Neg {
+				ps = append(ps, c.canon(info, cd.Expr, nil))
+			}
+		}
+		asgs = append(asgs, asg{o, end, strings.TrimSuffix(strings.TrimSuffix(k, ".right"), ".left"), strings.Join(ps, " && ")})
+		return true
+	})
+	up, down := false, false
+	for _, x := range asgs {
+		has := func(end string) bool {
+			return strings.Contains(x.pos, x.edge+"."+end+" == "+b.Name()) || strings.Contains(x.pos, b.Name()+" == "+x.edge+"."+end)
+		}
+		if x.obj == a && x.end == "right" && has("right") {
+			up = true
+		}
+		if x.obj == a && x.end == "left" && has("left") {
+			down = true
+		}
+	}
+	c.Check(up && down, "SYM", key, fi.Decl.Pos(), "the ends of the cut branch are taken in both orientations (before and after the apex of the path)",
+		fmt.Sprintf("walking the longest path, the ends of the branch to cut are not assigned under both `E.Right() == %s` (climbing) and `E.Left() == %s` (descending after the apex): when the midpoint lies on the descending part the two pieces go to the wrong ends", b.Name(), b.Name())).Clause = clause
 }
